@@ -693,6 +693,10 @@ impl Database {
         drop(storage);
 
         self.flush_wal_if_autocommit(file_manager, schema_name, table_name, table_id as u32)?;
+        if has_toast {
+            // the TOAST table's pages (chunks removed above) belong to this statement
+            self.flush_toast_wal_if_autocommit(file_manager, schema_name, table_name)?;
+        }
 
         drop(file_manager_guard);
 
